@@ -56,17 +56,19 @@ def build_contract(leaves, default):
             # x == MARK+i
             a.push(4).op("CALLDATALOAD").push(MARK + i).op("EQ").op("ISZERO").jumpi(nxt)
             if g == "unreach":
-                # ... and x == MARK+i+0x100 (contradiction; survives only under injected `unknown`)
-                a.push(4).op("CALLDATALOAD").push(MARK + i + 0x100).op("EQ").op("ISZERO").jumpi(nxt)
+                # ... and (y & 0xff == 3) and (y & 0x0f == 5): a contradiction that only a solver sees, so the
+                # path survives exactly because every branching query is answered `unknown`
+                a.push(0xFF).push(0x24).op("CALLDATALOAD").op("AND").push(3).op("EQ").op("ISZERO").jumpi(nxt)
+                a.push(0x0F).push(0x24).op("CALLDATALOAD").op("AND").push(5).op("EQ").op("ISZERO").jumpi(nxt)
             elif g == "mulsat":
-                # ... and x * y == (MARK+i) * 3   (needs the multiplication abstraction refined; satisfiable)
-                a.push(0x24).op("CALLDATALOAD").push(4).op("CALLDATALOAD").op("MUL")
-                a.push((MARK + i) * 3).op("EQ").op("ISZERO").jumpi(nxt)
+                # ... and y * y == 9: symbolic x symbolic, so halmos abstracts the product; the first model the solver
+                # gives may assign the abstraction freely (invalid model => refinement => second query, satisfiable)
+                a.push(0x24).op("CALLDATALOAD").op("DUP1").op("MUL")
+                a.push(9).op("EQ").op("ISZERO").jumpi(nxt)
             elif g == "mulunsat":
-                # ... and x * y == 2*(MARK+i) + 1 with x even or odd such that no y exists: x*y is a multiple of gcd;
-                # MARK+i even => x*y even, never 2k+1 (mod 2^256 too, x even keeps the product even)
-                a.push(0x24).op("CALLDATALOAD").push(4).op("CALLDATALOAD").op("MUL")
-                a.push(2 * (MARK + i) + 1).op("EQ").op("ISZERO").jumpi(nxt)
+                # ... and y * y == 3: no square is 3 modulo 8, so the refined query is unsatisfiable
+                a.push(0x24).op("CALLDATALOAD").op("DUP1").op("MUL")
+                a.push(3).op("EQ").op("ISZERO").jumpi(nxt)
             leaf_body(a, i, leaf)
             a.label(nxt)
         if default == "success":
@@ -169,7 +171,10 @@ class C05Check:
                 for ee, cs, th in opts:
                     vecs.append(dict(leaves=leaves, default=default, early_exit=ee, cache=cs, threads=th))
             else:
-                ee, cs, th = opts[n % len(opts)]
+                ee, cs, th = opts[zlib.crc32(repr((leaves, default)).encode()) % len(opts)]
+                # unsat-core reply faults only mean something with the cache on
+                if any(lf["reply"].startswith("core_") for lf in leaves):
+                    cs = True
                 vecs.append(dict(leaves=leaves, default=default, early_exit=ee, cache=cs, threads=th))
             n += 1
 
@@ -280,7 +285,13 @@ class C05Check:
             v0 = self._verdict(runs[0][0])
             v1 = self._verdict(runs[1][0])
             # --early-exit admits one difference: FAIL because a valid counterexample ended the run early
-            if v0 != v1 and not (vec["early_exit"] and "FAIL" in (v0, v1)):
+            # the twins are comparable only if the same faults were actually met: a query that one schedule
+            # answers from the unsat-core cache never reaches the (faulty) solver in that schedule
+            def met(o):
+                return sorted((str(h.get("leaf")), h["kind"], h["refined"]) for h in o.stub.history)
+
+            same_faults = met(runs[0][0]) == met(runs[1][0])
+            if v0 != v1 and same_faults and not (vec["early_exit"] and "FAIL" in (v0, v1)):
                 violations.append(dict(oracle="C05:schedule-dependent-verdict", disc=f"{v0}-vs-{v1}",
                                        detail=f"same test and same solver replies, two schedules: verdict {v0} vs {v1}; vector {vec}"))
         out0 = runs[0][0]
@@ -296,11 +307,12 @@ class C05Check:
             probes["paths"] = probes.get("paths", 0) + len(observed)
             probes["verdict_" + str(self._verdict(out))] = probes.get("verdict_" + str(self._verdict(out)), 0) + 1
             probes["switches"] = probes.get("switches", 0) + out.sim.switches
+            probes["cache_hits"] = probes.get("cache_hits", 0) + len(out.cache.hits)
             if any(h["kind"] == "truth" and h["truth"] == "sat" and "f_evm_" in h["stdout"] for h in out.stub.history):
                 probes["abstract_model_seen"] = probes.get("abstract_model_seen", 0) + 1
         digest = "|".join(o.sim.digest() for o, _ in runs)
         incon = None
-        if any(o.stub.wall_timeouts for o, _ in runs):
+        if any(o.stub.wall_timeouts or any(h["wall_timeout"] for h in o.cache.hits) for o, _ in runs):
             incon, violations = "truthful-solver-wall-timeout", []
         res = dict(violations=violations, inconclusive=incon, faults=faults, probes=probes, digest=digest,
                    shape=repr(vec), nontrivial=probes["queries"] >= 1 and probes["switches"] >= 2,
@@ -372,6 +384,7 @@ class C05Check:
             return first_line_class(h["stdout"])
 
         counts = {"sat": 0, "unsat": 0, "unknown": 0, "err": 0}
+        cache_hits = list(out.cache.hits)
         valid_sat_delivered = False
         n_stuck = 0
         n_normal = sum(1 for o in observed if o["cls"] == "normal")
@@ -381,8 +394,12 @@ class C05Check:
             hs = by_path.get(str(o["path_id"]), [])
             if o["cls"] == "potential":
                 if not hs:
-                    if vec["cache"]:
-                        counts["unsat"] += 1  # answered from the unsat-core cache (its soundness is C16's matter)
+                    if vec["cache"] and cache_hits:
+                        # answered from the unsat-core cache: what counts is what the solver would have said
+                        hit = cache_hits.pop(0)
+                        counts["sat" if hit["truth"] == "sat" else "unsat" if hit["truth"] == "unsat" else "unknown"] += 1
+                        if hit["truth"] == "sat":
+                            valid_sat_delivered = True
                     else:
                         incomplete = True  # no query: only legal when the executor was shut down (early exit)
                     continue
